@@ -233,6 +233,17 @@ pub fn close(x: f64, r: f64, rel: f64, abs: f64) -> bool {
     (x - r).abs() <= rel * r.abs() + abs
 }
 
+/// A value printed with `p` decimals and parsed back, against the reference value.
+pub fn printed_ok(got: f64, expect: f64, p: usize) -> bool {
+    if got.is_nan() || expect.is_nan() {
+        return got.is_nan() && expect.is_nan();
+    }
+    if got.is_infinite() || expect.is_infinite() {
+        return got == expect;
+    }
+    (got - expect).abs() <= 0.5 * 10f64.powi(-(p as i32)) * (1.0 + 1e-6) + 1e-9 * expect.abs()
+}
+
 /// Tolerance for hypergeometric coefficients and projected mass.
 pub fn close_coef(x: f64, r: f64) -> bool {
     close(x, r, 1e-8, 1e-13)
